@@ -167,8 +167,15 @@ inline IFile ovmb_decode(const std::string &img) {
                 else if (ent == 2) { if (hs.empty()) f.undecided("face-valence-0"); f.faces.push_back(hs); }
                 else { if (hs.empty()) f.undecided("cell-valence-0"); f.cells.push_back(hs); }
             }
-            if (f.topo_type == 1 && ((ent == 2 && val != 3) || (ent == 3 && val != 4))) f.undecided("tet-valence");
-            if (f.topo_type == 2 && ((ent == 2 && val != 4) || (ent == 3 && val != 6))) f.undecided("hex-valence");
+            if ((f.topo_type == 1 || f.topo_type == 2) && ent >= 2) {
+                // a header that promises a tetrahedral / hexahedral mesh contradicts a face or cell of another valence ("inconsistent with the
+                // rest of the file"); a variable-valence chunk whose values all fit is merely another encoding the reader documents it refuses
+                uint64_t reqv = f.topo_type == 1 ? (ent == 2 ? 3 : 4) : (ent == 2 ? 4 : 6);
+                bool contradiction = false;
+                for (uint64_t v : vals) if (v != reqv) contradiction = true;
+                if (contradiction) { f.invalid(f.topo_type == 1 ? "topo-type-tet-contradicts-valence" : "topo-type-hex-contradicts-valence"); return f; }
+                if (val != reqv) f.undecided(f.topo_type == 1 ? "tet-valence" : "hex-valence");
+            }
             readn += count;
         } else if (c.type == "DIRP") {
             if (dirp_seen) { f.invalid("second-DIRP"); return f; }
